@@ -164,10 +164,19 @@ impl Scenario for X25519Hs {
                     let r = guarded(|| {
                         let ska = x25519::SecretKey::from(a);
                         let skb = x25519::SecretKey::from(b);
-                        let pa: [u8; 32] = x25519::base(&ska).into();
+                        // the key types' byte conversions both ways: From<[u8; 32]> / Into, TryFrom<&[u8]> / AsRef<[u8]>
+                        let pa_obj = x25519::base(&ska);
+                        let pa_ref = pa_obj.as_ref().to_vec();
+                        let pa: [u8; 32] = pa_obj.into();
+                        assert!(pa_ref[..] == pa[..], "PublicKey::as_ref and Into<[u8; 32]> disagree");
                         let pb: [u8; 32] = x25519::base(&skb).into();
                         let delivered_b = if op.arg == 0 { pb } else { special_fe(op.arg - 1, op.seed ^ 0xc4) };
-                        let s1: [u8; 32] = x25519::dh(&ska, &x25519::PublicKey::from(delivered_b)).into();
+                        use core::convert::TryFrom;
+                        let pkb = x25519::PublicKey::try_from(&delivered_b[..]).expect("a 32-byte slice is a public key");
+                        let s1_obj = x25519::dh(&ska, &pkb);
+                        let s1_ref = s1_obj.as_ref().to_vec();
+                        let s1: [u8; 32] = s1_obj.into();
+                        assert!(s1_ref[..] == s1[..], "SharedSecret::as_ref and Into<[u8; 32]> disagree");
                         let s2: [u8; 32] = x25519::dh(&skb, &x25519::PublicKey::from(pa)).into();
                         (pa, pb, s1, s2)
                     });
